@@ -1083,3 +1083,6 @@ V("C04", "twin-hash-bonds-frozenset", TOPF, "        hash_value ^= hash(tuple(so
 V("C19", "netcdf-atom-count-unchecked", NCF, "        if n_atoms != self.n_atoms:\n            raise ValueError(\n                \"coordinates has %d atoms, but the file holds %d atoms per frame\" % (n_atoms, self.n_atoms),\n            )\n", "", "C19-R2")
 V("C02", "pdb-frame-and-atoms-one-subscript", "mdtraj/formats/pdb/pdbfile.py", "            coords = f.positions[[frame]][:, atom_slice, :]", "            coords = f.positions[[frame], atom_slice, :]", "C02-R5")
 V("C02", "twin-pdb-frame-slice", "mdtraj/formats/pdb/pdbfile.py", "            coords = f.positions[[frame]][:, atom_slice, :]", "            coords = f.positions[frame : frame + 1][:, atom_slice, :] if frame >= 0 else f.positions[[frame]][:, atom_slice, :]", None)
+V("C01", "mdcrd-overflow-truncated", "mdtraj/formats/mdcrd.py", "                if len(out) > 8:\n                    raise ValueError(\"Overflow error\")", "                if len(out) > 8:\n                    out = out[:8]", "C01-R4")
+V("C01", "mdcrd-lookahead-unguarded", "mdtraj/formats/mdcrd.py", "                try:\n                    peek = [float(elem) for elem in line.strip().split()]\n                except ValueError:\n                    # fixed-width coordinate fields that touch (\"0.000-125.000\"):\n                    # the first line of the next frame, not a box line\n                    peek = []", "                peek = [float(elem) for elem in line.strip().split()]", "C01-R4")
+V("C01", "save-hdf5-time-by-flag", TRJ, "                time=self.time,\n                cell_lengths=in_units_of(\n                    self.unitcell_lengths,\n                    Trajectory._distance_unit,\n                    f.distance_unit,\n                ),\n                cell_angles=self.unitcell_angles,\n            )\n            f.topology = self.topology", "                time=None if self._time_default_to_arange else self.time,\n                cell_lengths=in_units_of(\n                    self.unitcell_lengths,\n                    Trajectory._distance_unit,\n                    f.distance_unit,\n                ),\n                cell_angles=self.unitcell_angles,\n            )\n            f.topology = self.topology", "C01-R2")
